@@ -1,13 +1,70 @@
 import Lean.Data.Json
 import Aqua
-open Lean
+/-! Line-protocol driver of the model: one JSON request per line on stdin, one JSON answer per line. -/
+open Lean Aqua
+
+namespace Drv
+
+def getStr (j : Json) (k : String) : String := (j.getObjValAs? String k).toOption.getD ""
+def getNat (j : Json) (k : String) : Nat := (j.getObjValAs? Nat k).toOption.getD 0
+def getInt (j : Json) (k : String) : Int := (j.getObjValAs? Int k).toOption.getD 0
+def getBool (j : Json) (k : String) : Bool := (j.getObjValAs? Bool k).toOption.getD false
+def getArr (j : Json) (k : String) : Array Json := match j.getObjVal? k with
+  | .ok (.arr a) => a
+  | _ => #[]
+def getNatList (j : Json) (k : String) : List Nat := (getArr j k).toList.map fun x => (x.getNat?).toOption.getD 0
+def getStrList (j : Json) (k : String) : List String := (getArr j k).toList.map fun x => (x.getStr?).toOption.getD ""
+def hexDigit (c : Char) : Nat :=
+  if '0' ≤ c ∧ c ≤ '9' then c.toNat - '0'.toNat else if 'a' ≤ c ∧ c ≤ 'f' then c.toNat - 'a'.toNat + 10 else 0
+def unhex (s : String) : Bytes :=
+  let rec go : List Char → Bytes
+    | a :: b :: rest => UInt8.ofNat (hexDigit a * 16 + hexDigit b) :: go rest
+    | _ => []
+  go s.toList
+def hexOf (b : Bytes) : String :=
+  let d (n : Nat) : Char := if n < 10 then Char.ofNat (48 + n) else Char.ofNat (87 + n)
+  String.ofList (b.flatMap fun x => [d (x.toNat / 16), d (x.toNat % 16)])
+
+def limitsOf (j : Json) : Run.Limits :=
+  { airSizeLimit := getNat j "air", particleSizeLimit := getNat j "particle",
+    callResultSizeLimit := getNat j "call_result", hardLimitEnabled := getBool j "hard" }
+
+def blobName : Run.SBlob → String
+  | .prev => "prev" | .cur => "cur" | .refData => "ref" | .empty => "empty"
+
+def opStagedRun (j : Json) : Json :=
+  let r := (j.getObjVal? "ref").toOption.getD Json.null
+  let ref : Run.RefRun :=
+    { code := getInt r "code", msg := getStr r "msg", nextPeerPks := getStrList r "next",
+      callRequests := unhex (getStr r "requests"), curLen := getNat j "cur_len", resultLens := getNatList j "result_lens" }
+  let l := limitsOf ((j.getObjVal? "limits").toOption.getD Json.null)
+  let o := Run.executeAir (Run.stagedStages ref) l (Run.stagedInput (getStr j "air"))
+  Json.mkObj [("code", toJson o.retCode), ("msg", o.errorMessage), ("data", blobName o.data),
+    ("next", toJson o.nextPeerPks), ("requests", hexOf o.callRequests),
+    ("flags", toJson [o.flags.air, o.flags.particle, o.flags.callResult])]
+
+def opSemver (j : Json) : Json :=
+  match Semver.parse (getStr j "version").toList, Semver.parse Gen.minimalInterpreterVersion.toList with
+  | some v, some m => Json.mkObj [("parsed", true), ("lt_min", Semver.lt v m),
+      ("cmp", match Semver.cmp v m with | .lt => "lt" | .eq => "eq" | .gt => "gt")]
+  | none, _ => Json.mkObj [("parsed", false)]
+  | _, none => Json.mkObj [("error", "minimal version does not parse")]
+
+def dispatch (j : Json) : Json :=
+  match getStr j "op" with
+  | "staged_run" => opStagedRun j
+  | "semver" => opSemver j
+  | "ping" => Json.mkObj [("pong", true)]
+  | op => Json.mkObj [("error", s!"unknown op {op}")]
+
+end Drv
 
 partial def loop (h : IO.FS.Stream) (out : IO.FS.Stream) : IO Unit := do
   let line ← h.getLine
   if line.isEmpty then return ()
   let resp := match Json.parse line with
     | .error e => Json.mkObj [("protocol_error", Json.str e)]
-    | .ok j => Json.mkObj [("echo", j)]
+    | .ok j => Drv.dispatch j
   out.putStrLn resp.compress
   out.flush
   loop h out
